@@ -66,6 +66,13 @@ fn build_inputs(o: &Oracle, seed: u64) -> Vec<String> {
             }
         }
     }
+    // inputs of 256 bytes and more that are not normalized (size-dependent paths: scratch buffers, chunked processing)
+    for (tag, unit, n) in [("u0", "a\u{301}e\u{308}o\u{302}", 60usize), ("u1", "u\u{30b}n\u{303}c\u{327}", 70), ("u2", "\u{212b}\u{2126}k", 90),
+                           ("n3", "\u{2163}\u{fb01}", 80), ("p4", "x \u{3000}y\u{e9}", 64), ("w5", "\u{ff21}\u{ff42}\u{ff71}", 100)] {
+        v.push(format!("{}{}", tag, unit.repeat(n)));
+        // a prefix of it: compare(prefix, whole) is asked with views of one buffer
+        v.push(format!("{}{}", tag, unit.repeat(n / 2)));
+    }
     v.sort();
     v.dedup();
     // a seeded shuffle so that neighbours in the list are of different kinds
@@ -86,12 +93,18 @@ fn call(p: &str, op: &str, form: &str, kind: ArgKind, inputs: &[String], i: usiz
         return call_allows(&op[6..], &inputs[i]);
     }
     let args: Vec<String> = if op == "compare" {
-        vec![inputs[i].clone(), inputs[(i + 1) % inputs.len()].clone()]
+        if i % 3 == 0 && inputs[i].chars().count() >= 2 {
+            // a proper prefix of the first operand (passed as a view of the same buffer by the borrowed argument kinds)
+            let half: String = inputs[i].chars().take(inputs[i].chars().count() / 2).collect();
+            vec![inputs[i].clone(), half]
+        } else {
+            vec![inputs[i].clone(), inputs[(i + 1) % inputs.len()].clone()]
+        }
     } else {
         vec![inputs[i].clone()]
     };
-    // the trait's static form of compare takes &str only
-    let kind = if op == "compare" { ArgKind::Str } else { kind };
+    // compare: a borrowed kind passes views of one buffer when one operand contains the other
+
     call_profile_full(p, form, op, kind, &args).0
 }
 
@@ -138,7 +151,7 @@ fn child(args: &[String]) {
                             calls += 1;
                             if Some(&got) != reference.get(&key(p, op, i)) && bad.len() < 20 {
                                 bad.push(json!({"thread": t, "process": index, "pass": pass, "call_no": calls, "profile": p, "op": op, "form": form,
-                                                "input": string_to_cps(&inputs[i]), "second": if *op == "compare" { string_to_cps(&inputs[(i + 1) % n]) } else { Value::Null },
+                                                "input": string_to_cps(&inputs[i]), "second": if *op == "compare" { json!("the next input, or the first half of this one when its index is a multiple of 3") } else { Value::Null },
                                                 "sequential": reference.get(&key(p, op, i)), "concurrent": got}));
                             }
                         }
@@ -189,7 +202,7 @@ pub fn main(args: &[String]) {
     for i in 0..inputs.len() {
         for p in PROFILES.iter() {
             for op in OPS.iter() {
-                reference.insert(key(p, op, i), call(p, op, "inst", ArgKind::Str, &inputs, i));
+                reference.insert(key(p, op, i), call(p, op, "inst", ArgKind::Owned, &inputs, i));
             }
         }
     }
